@@ -687,3 +687,29 @@ CONTRACTS[U + 'batch_dot'] = dict(
                'forall(b, 0, j2, same(gs[j1][b], Xor(gs1[j1], gs2[b])))',
                'forall(b, 0, j2, cs[j1][b] == cmul(cs1[j1], cs2[b]))'])},
 )
+
+# ------------------------------------------------------------------ group-level consequences (lemmas over the contracts)
+LEMMAS['mul_assoc'] = dict(
+    doc='C01: the product phase is a 2-cocycle, i.e. products are associative: (a b) c = a (b c) with the exact power of i',
+    params=[('a', 'int1'), ('b', 'int1'), ('c', 'int1'), ('n', 'int')],
+    requires=['bits(a, 2 * n)', 'bits(b, 2 * n)', 'bits(c, 2 * n)'],
+    ensures=['(IpowSum(a, b, n) + IpowSum(Xor(a, b), c, n) - IpowSum(b, c, n) - IpowSum(a, Xor(b, c), n)) % 4 == 0'],
+    induction='n',
+)
+LEMMAS['mul_square'] = dict(
+    doc='C01: every Pauli string squares to the identity string with no extra phase, so (g,p)^2 = (0, 2p): plus or minus identity',
+    params=[('a', 'int1'), ('n', 'int')],
+    requires=['bits(a, 2 * n)'],
+    ensures=['IpowSum(a, a, n) == 0', 'forall(c, 0, 2 * n, Xor(a, a)[c] == 0)'],
+    induction='n',
+)
+LEMMAS['rotate_twice'] = dict(
+    doc='C02: for P anticommuting with G the two product phases of (P G) G cancel mod 4 and the anticommutation persists; with the '
+        'row contract of clifford_rotate this gives rotate(-G) after rotate(G) = identity and rotate(G)^2 = -1 on such P, hence ^4 = identity',
+    params=[('P', 'int1'), ('G', 'int1'), ('n', 'int')],
+    requires=['bits(P, 2 * n)', 'bits(G, 2 * n)'],
+    ensures=['(IpowSum(P, G, n) + IpowSum(Xor(P, G), G, n)) % 4 == 0',
+             '(AcqSum(G, Xor(P, G), n) - AcqSum(G, P, n)) % 2 == 0',
+             'forall(c, 0, 2 * n, Xor(Xor(P, G), G)[c] == P[c])'],
+    induction='n',
+)
